@@ -81,10 +81,11 @@ def e_ty(t):
 
 
 def e_ctx(ctx):
-    """ctx = None | dict(basic=dict, sw_header=str, sw_column=str, sw_table=dict)"""
+    """ctx = None | dict(basic=dict, sw_header=str, sw_column=str, sw_table=dict, sw_strip=bool)"""
     if ctx is None:
         return "()"
-    return e_list([e_remap(ctx["basic"]), e_str(ctx["sw_header"]), e_str(ctx["sw_column"]), e_remap(ctx["sw_table"])])
+    return e_list([e_remap(ctx["basic"]), e_str(ctx["sw_header"]), e_str(ctx["sw_column"]), e_remap(ctx["sw_table"]),
+                   "1" if ctx.get("sw_strip") else "0"])
 
 
 def e_rowmodel(t, ctx=None):
